@@ -38,6 +38,7 @@ type SliceV struct {
 	cell          *Cell // backing: value is *Tuple (concrete length) or *SymArr
 	off, len, cap *Term
 	elem          types.Type
+	named         types.Type // static (possibly named) slice type when known
 }
 
 // SymArr is a symbolic-length backing store: per-leaf SMT arrays are modelled
